@@ -348,6 +348,7 @@ func (h *tkRun) doCreate(st *tkStep) {
 		extra = append(extra, nodeenrollment.WithState(t.state))
 	}
 	var err error
+	t0 := time.Now()
 	if p, stack := engine.Guard(func() {
 		t.id, t.str, err = registration.CreateServerLedActivationToken(h.s.Ctx, h.s.Store, &types.ServerLedRegistrationRequest{}, h.s.Opts(extra...)...)
 	}); p != nil {
@@ -377,6 +378,24 @@ func (h *tkRun) doCreate(st *tkStep) {
 	if !t.present {
 		r.Broken("tokens: created token has no record under the returned ID")
 		return
+	}
+	// expiry is governed by the creation time recorded (sealed) at creation: it is the instant of the creating
+	// call, which two clock readings bracket (50 ms of slack for a stepping wall clock)
+	t1 := time.Now()
+	if rec, lerr := types.LoadServerLedActivationToken(h.s.Ctx, h.s.Inner, t.id, h.s.StoreOpts()...); lerr == nil && rec.GetCreationTime() != nil {
+		const slack = 50 * time.Millisecond
+		ct := rec.GetCreationTime().AsTime()
+		switch {
+		case ct.Before(t0.Add(-slack)):
+			// the token expires early: nothing in the statement forbids that
+			r.Count("creation_time_before_the_creating_call(expires early; not judged)", 1)
+		case ct.After(t1.Add(slack)):
+			r.Violation("creation-time-not-the-time-of-creation:late", fmt.Sprintf("the creation time recorded for a new token lies %v after the creating call returned: the token outlives the configured maximum lifetime by that much", ct.Sub(t1).Round(time.Millisecond)), h.witness(st, nil, "created", nil))
+		default:
+			r.Count("creation_time_inside_the_bracket_of_the_creating_call", 1)
+		}
+	} else {
+		r.Count("creation_time_not_readable_after_create", 1)
 	}
 	h.toks = append(h.toks, t)
 	r.Count("step:create", 1)
@@ -899,6 +918,72 @@ func (h *tkRun) doUse(st *tkStep) {
 	t.present = presentAfter
 }
 
+// doUseReconstructed: somebody who can read the server's storage presents what can be put together from a
+// token's stored record alone - the decoded storage ID in the place of the nonce, with a key of their own, of
+// the ID's second half, or none. That is not the token: the fetch fails, registers nothing, and leaves the
+// token as it was (st.Arg selects the variant).
+func (h *tkRun) doUseReconstructed(st *tkStep) {
+	r := h.c.R
+	t := h.tok(st.Tok)
+	k := h.key(st.Key)
+	if t == nil || k == nil || !t.present || k.registered != "" {
+		r.Count("step-skipped", 1)
+		return
+	}
+	raw, ok := tokensBase58Decode(t.id)
+	if !ok || len(raw) < 33 {
+		r.Broken("tokens: stored token ID does not decode")
+		return
+	}
+	tn := &types.ServerLedActivationTokenNonce{Nonce: raw, HmacKeyBytes: world.RandBytes(32)}
+	variant := []string{"whole-id-as-nonce", "first-half-as-nonce", "whole-id-as-nonce,second-half-as-key", "halves-as-nonce-and-key", "whole-id-as-nonce,one-byte-key"}[st.Arg%5]
+	switch st.Arg % 5 {
+	case 1:
+		tn.Nonce = raw[:32]
+	case 2:
+		tn.HmacKeyBytes = raw[32:]
+	case 3:
+		tn.Nonce, tn.HmacKeyBytes = raw[:32], raw[32:]
+	case 4:
+		tn.HmacKeyBytes = []byte{1}
+	}
+	b, _ := proto.Marshal(tn)
+	forged := nodeenrollment.ServerLedActivationTokenPrefix + tokensBase58Encode(b)
+	req, err := k.node.Creds.CreateFetchNodeCredentialsRequest(h.s.Ctx, nodeenrollment.WithActivationToken(forged))
+	if err != nil {
+		r.Count("use-reconstructed:request-not-built", 1)
+		return
+	}
+	before := h.nodeRecords()
+	var resp *types.FetchNodeCredentialsResponse
+	var ferr error
+	p, stack := engine.Guard(func() { resp, ferr = registration.FetchNodeCredentials(h.s.Ctx, h.s.Store, req, h.s.Opts()...) })
+	after := h.nodeRecords()
+	_, presentAfter := h.rawToken(t.id)
+	h.compared = true
+	r.Count("step:use-reconstructed", 1)
+	w := func(outcome string) tkWitness {
+		x := h.witness(st, []string{"reconstructed-from-storage:" + variant}, outcome, ferr)
+		x.TokenHex = hex.EncodeToString(b)
+		return x
+	}
+	switch {
+	case p != nil:
+		r.Violation("panic:"+engine.LibraryFrame(stack), fmt.Sprintf("FetchNodeCredentials panicked on a token put together from a stored record (%s): %v", variant, p), w("panic"))
+	case ferr == nil && resp != nil && len(resp.EncryptedNodeCredentials) > 0:
+		r.Violation("token-reconstructed-from-storage-accepted:"+variant, "a token put together from what the server persists for an outstanding token ("+variant+") enrolled a node", w("credentials"))
+	default:
+		r.Count("refusal-observed:reconstructed-from-storage", 1)
+	}
+	if len(after) != len(before) {
+		r.Violation("failed-fetch-left-node-record", fmt.Sprintf("a fetch with a token put together from a stored record (%s) changed the node records (%d -> %d)", variant, len(before), len(after)), w("records-changed"))
+	}
+	if !presentAfter && (ferr != nil || resp == nil || len(resp.EncryptedNodeCredentials) == 0) {
+		r.Count("use-reconstructed:token-record-consumed-by-refused-attempt", 1)
+	}
+	t.present = presentAfter
+}
+
 // ---------------------------------------------------------------------------
 // what storage saw vs. the token secrets
 
@@ -1104,6 +1189,8 @@ func runTKCase(c *engine.Ctx, tc tkCase) {
 			h.doTamper(st)
 		case "use", "use-removefail":
 			h.doUse(st)
+		case "use-reconstructed":
+			h.doUseReconstructed(st)
 		default:
 			r.Count("step-skipped", 1)
 		}
@@ -1207,6 +1294,10 @@ func tokensDirected(rng *rand.Rand) []tkCase {
 			}})
 			out = append(out, tkCase{Wrap: wrap, Origin: "directed:registered-key-token", Steps: []tkStep{
 				{Op: "create", State: true}, {Op: "create"}, use(0, 0, life), use(1, 0, life), use(1, 1, life), use(1, 0, life),
+			}})
+			out = append(out, tkCase{Wrap: wrap, Origin: "directed:reconstructed-from-storage", Steps: []tkStep{
+				{Op: "create"}, {Op: "use-reconstructed", Tok: 0, Key: 0, Arg: 0}, {Op: "use-reconstructed", Tok: 0, Key: 1, Arg: 1}, {Op: "use-reconstructed", Tok: 0, Key: 2, Arg: 2},
+				{Op: "use-reconstructed", Tok: 0, Key: 0, Arg: 3}, {Op: "use-reconstructed", Tok: 0, Key: 1, Arg: 4}, use(0, 3, life),
 			}})
 			nostore := func(tok, key int) tkStep { return tkStep{Op: "use", Tok: tok, Key: key, Life: life, NoStore: true} }
 			out = append(out, tkCase{Wrap: wrap, Origin: "directed:first-use-with-skip-storage", Steps: []tkStep{
